@@ -570,6 +570,8 @@ func (e *Engine) verifapi(fr *frame, fn *ssa.Function, a []Value) Value {
 		return nil
 	case "Twin":
 		return e.twin
+	case "Thorough":
+		return thoroughTier
 	case "SetFile":
 		if e.vfs == nil {
 			e.vfs = map[string]string{}
